@@ -111,6 +111,14 @@ Definition get (c : cache) (key : N) : cres (option (list byte)) :=
 
 Definition contains (c : cache) (key : N) : cres bool :=
   match get c key with COk (Some _) => COk true | COk None => COk false | CErr e => CErr e | CPanic => CPanic end.
+(* get_value::<V>: the typed lookup, [V::from_bytes] applied to the stored bytes (redb feature) *)
+Definition get_value {A} (from_bytes : list byte -> A) (c : cache) (key : N) : cres (option A) :=
+  match get c key with
+  | COk (Some v) => COk (Some (from_bytes v))
+  | COk None => COk None
+  | CErr e => CErr e
+  | CPanic => CPanic
+  end.
 Definition clen (c : cache) : N := lenN (c_indexes c).
 Definition cfull (c : cache) : bool := c_full c.
 
